@@ -485,16 +485,24 @@ def pure_body_expr(fn: ast.FunctionDef) -> Optional[ast.AST]:
     body = _docless(fn.body)
     if not body or not isinstance(body[-1], ast.Return) or body[-1].value is None:
         return None
+    chain = []      # `if C: return A` steps before the final return
     for s in body[:-1]:
-        if not (isinstance(s, (ast.Assign, ast.AnnAssign)) and
-                all(isinstance(t, (ast.Name, ast.Tuple)) for t in
-                    (s.targets if isinstance(s, ast.Assign) else [s.target]))):
+        if isinstance(s, ast.If) and not s.orelse and len(s.body) == 1 and \
+                isinstance(s.body[0], ast.Return) and s.body[0].value is not None:
+            chain.append(s)
+            continue
+        if chain or not (isinstance(s, (ast.Assign, ast.AnnAssign)) and
+                         all(isinstance(t, (ast.Name, ast.Tuple)) for t in
+                             (s.targets if isinstance(s, ast.Assign) else [s.target]))):
             return None
     w = walk_function(fn)
     rets = [e for e in w.events if e.kind == 'return']
-    if len(rets) != 1:
+    if len(rets) != 1 + len(chain):
         return None
-    return w.expand(rets[0].value)
+    out = w.expand(body[-1].value)
+    for s in reversed(chain):
+        out = ast.IfExp(w.expand(s.test), w.expand(s.body[0].value), out)
+    return out
 
 
 def inline_pure_exprs(index: RepoIndex, module: Module, cls, expr: ast.AST,
